@@ -394,13 +394,22 @@ class Single:
         inp = input_for(plan, inp_by_name, k, rt_len)
         if inp is None:
             return "noinput", ""
-        a = vcheck.run_model(self.irrun, [plan.ir_request(inp, self.fuel)], timeout=60)[0]
-        try:
-            b = vcheck.run_model(self.mslrun, [plan.msl_request(mslcorr.ast_for_model(ast), epn, inp, self.fuel)], timeout=60)[0]
-        except Exception as e:
-            b = {"ok": False, "kind": "crash", "msg": str(e)[-200:]}
+        ill = illformed_dc(m["text"])
+
+        def run_msl():
+            if ill:
+                return {"ok": False, "kind": "fail", "msg": ILLFORMED_DC}        # decided statically: no need to run
+            try:
+                return vcheck.run_model(self.mslrun, [plan.msl_request(mslcorr.ast_for_model(ast), epn, inp, self.fuel)], timeout=60)[0]
+            except Exception as e:
+                return {"ok": False, "kind": "crash", "msg": str(e)[-200:]}
+        from concurrent.futures import ThreadPoolExecutor
+        with ThreadPoolExecutor(2) as ex:
+            fb = ex.submit(run_msl)
+            a = vcheck.run_model(self.irrun, [plan.ir_request(inp, self.fuel)], timeout=60)[0]
+            b = fb.result()
         has_wg = any(sp == "SpaceWorkGroup" and h in plan.used for h, sp, b_, ty in plan.globals)
-        c, d = classify(plan, setname, a, b, has_wg, not ast["unparsed"], illformed_dc(m["text"]))
+        c, d = classify(plan, setname, a, b, has_wg, not ast["unparsed"], ill)
         self.last = {"src": src, "msl": m["text"], "detail": d, "input": inp}
         return c, d
 
@@ -698,7 +707,12 @@ def signature(prog):
     return ",".join(sorted(feats))
 
 
+# features nearly every program has: they say nothing about the construct a disagreement needs
+BORING = ("s:assign", "s:let", "s:var", "idx:const", "addr", "arraylen", "op:%", "bitcast", "swz", "mem",
+          "decl:u32", "decl:i32", "decl:f32", "decl:bool", "decl:vec", "cons:vec", "cons:vec:zero", "fn")
+
+
 def key_of(cls, small):
     import hashlib
-    sig = signature(small)
+    sig = ",".join(f for f in signature(small).split(",") if f and f not in BORING and not f.startswith("g:"))
     return "gen:%s:%s" % (cls, sig if len(sig) <= 160 else sig[:120] + "#" + hashlib.sha256(sig.encode()).hexdigest()[:10])
